@@ -49,6 +49,10 @@ pub struct CallSpec
     pub nested: Vec<CallSpec>,
     /// calls made by commands the body queues
     pub queued: Vec<CallSpec>,
+    /// despawn the entity of this spawned slot from inside the call (exclusive systems: directly in the body;
+    /// ordinary ones: by a queued command) - possibly the very system that is running
+    #[serde(default)]
+    pub kill: Option<u8>,
 }
 
 #[derive(Debug, Clone, PartialEq, Eq, Hash, Serialize, Deserialize)]
@@ -228,6 +232,12 @@ fn perform(world: &mut World, spec: &CallSpec) -> Result<Out, ()>
     }
 }
 
+fn kill_slot(world: &mut World, k: u8)
+{
+    let id = ST.with(|s| { let s = s.borrow(); if s.slots.is_empty() { None } else { s.slots[k as usize % s.slots.len()] } });
+    if let Some(id) = id { if let Ok(e) = world.get_entity_mut(id.entity()) { e.despawn(); } }
+}
+
 fn queue_effects(world: &mut World, f: F, plan: &CallSpec, count: u32)
 {
     let x = plan.x;
@@ -243,6 +253,7 @@ fn sys_a(In(plan): In<CallSpec>, world: &mut World, mut local: Local<u32>) -> Ou
     *local += 1;
     let count = *local;
     let nested = plan.nested.iter().map(|n| perform(world, n)).collect();
+    if let Some(k) = plan.kill { kill_slot(world, k); }
     queue_effects(world, F::A, &plan, count);
     Out{ f: F::A, x: plan.x, count, nested, changed: None }
 }
@@ -252,6 +263,7 @@ fn sys_b(In(plan): In<CallSpec>, world: &mut World, mut local: Local<u32>) -> Ou
     *local += 1;
     let count = *local;
     let nested = plan.nested.iter().map(|n| perform(world, n)).collect();
+    if let Some(k) = plan.kill { kill_slot(world, k); }
     queue_effects(world, F::B, &plan, count);
     Out{ f: F::B, x: plan.x, count, nested, changed: None }
 }
@@ -264,6 +276,7 @@ fn sys_n(In(plan): In<CallSpec>, mut c: Commands, mut local: Local<u32>, probe: 
     let count = *local;
     let x = plan.x;
     c.queue(move |_w: &mut World| effect(Effect::Marker(F::N, x, count)));
+    if let Some(k) = plan.kill { c.queue(move |w: &mut World| kill_slot(w, k)); }
     for q in plan.queued.iter().cloned()
     {
         c.queue(move |w: &mut World| { let r = perform(w, &q); effect(Effect::QueuedResult(r)); });
@@ -280,6 +293,7 @@ fn sys_p(In(plan): In<CallSpec>, mut ps: ParamSet<(Commands, Query<Entity>)>, mu
     let _ = ps.p1().iter().count();
     let mut c = ps.p0();
     c.queue(move |_w: &mut World| effect(Effect::Marker(F::P, x, count)));
+    if let Some(k) = plan.kill { c.queue(move |w: &mut World| kill_slot(w, k)); }
     for q in plan.queued.iter().cloned()
     {
         c.queue(move |w: &mut World| { let r = perform(w, &q); effect(Effect::QueuedResult(r)); });
@@ -355,6 +369,7 @@ impl Model
             if depth > 0 { self.hit("C17:nested_or_command_issued"); }
             self.hit("C17:syscall_once");
             let nested: Vec<Result<ExpOut, ()>> = if f == F::N || f == F::P { Vec::new() } else { spec.nested.iter().map(|n| self.call(n, depth + 1)).collect() };
+            if let Some(k) = spec.kill { if !self.slots.is_empty() { let i = k as usize % self.slots.len(); self.slots[i].1 = false; } }
             self.effects.push(ExpEffect::Marker(f, spec.x, Some(1)));
             for q in spec.queued.iter()
             {
@@ -404,6 +419,11 @@ impl Model
         };
         self.running.push(key);
         let nested: Vec<Result<ExpOut, ()>> = if f == F::N || f == F::P { Vec::new() } else { spec.nested.iter().map(|n| self.call(n, depth + 1)).collect() };
+        // a call may despawn a spawned system (even itself): it still returns its output; later calls on that slot fail
+        if let Some(k) = spec.kill
+        {
+            if !self.slots.is_empty() { let i = k as usize % self.slots.len(); self.slots[i].1 = false; self.hit("C17:spawned_system_despawned_during_a_call"); }
+        }
         // the body's commands: marker first, then the queued calls in order
         self.effects.push(ExpEffect::Marker(f, spec.x, count));
         for q in spec.queued.iter()
@@ -726,7 +746,8 @@ impl<'a> Dec<'a>
         if reenters(stack, target) { return None; }
         self.next_x += 1;
         let x = self.next_x;
-        let mut spec = CallSpec{ target, x, nested: Vec::new(), queued: Vec::new() };
+        let kill = if self.byte() % 8 == 0 { Some(self.below(4) as u8) } else { None };
+        let mut spec = CallSpec{ target, x, nested: Vec::new(), queued: Vec::new(), kill };
         if depth < 3
         {
             stack.push(target);
